@@ -52,7 +52,6 @@ package proxyserver
 //@   props C16,C11,C10,C06,C04
 //@   requires server != nil && conn != nil && server.HTTP2Server != nil && server.HTTPServer != nil && server.http1ConnChannelListener != nil
 //@   requires len(delivered(conn)) == 0
-//@   requires hack.ErrIncompleteClientHello != nil
 //@   structural [C10:confine-recover] confine_recover
 //@   structural [C11:close-registered-first] defers_before_calls Close
 //@   ensures [C16:exactly-once] incCount == old(incCount) + 1
